@@ -4,6 +4,8 @@ pub mod c03;
 pub mod c08;
 pub mod c09;
 pub mod c13;
+pub mod c14;
+pub mod c17;
 pub mod selftest;
 
 use crate::report::Report;
@@ -17,6 +19,8 @@ pub fn dispatch(ctx: &Ctx, rep: &mut Report) -> bool {
         "C08" => c08::run(ctx, rep),
         "C09" => c09::run(ctx, rep),
         "C13" => c13::run(ctx, rep),
+        "C14" => c14::run(ctx, rep),
+        "C17" => c17::run(ctx, rep),
         _ => return false,
     }
     true
